@@ -393,7 +393,7 @@ PROPS["C06"] = dict(
 )
 
 _WALK_NOTE = ("Trusted: TLC; the harness's materialisation of tree values (mkdir/symlink) and the in-process call of find_main with captured "
-              "output. Directories that cannot be read are given permissions 000 and the real binary is run as uid 65534 (C02). Link targets are "
+              "output. Directories that cannot be read are given permissions 311 (not listable; paths through them still resolve) and the real binary is run as uid 65534 (C02). Link targets are "
               "non-links or dangling (no link-to-link chains).")
 
 def _walk(flavour, text, rule, rq, rt):
